@@ -5,13 +5,19 @@ from props import refmodel as R
 
 ID = 'C12'
 COQ_PROPS = ['Props/C12.v']
-COQ_IMPORTS = ['Prims', 'CaseLib', 'BitsCore', 'Mutators', 'Search']
+COQ_IMPORTS = ['Prims', 'CaseLib', 'BitsCore', 'Mutators', 'Search', 'Golomb', 'Stream', 'Pack', 'LsbPack']
 RULE = ('every position-taking operation under options.lsb0=True (index, slice with any step, item/slice assignment and deletion, set, invert, find, rfind, findall, startswith, endswith, '
         'cut, replace, insert, overwrite, append, prepend, ranged reverse/byteswap, rol/ror, shifts, read/peek/unpack/pack order) compared with reverse(op_msb0(reverse(operands))) '
         'computed on the str reference; whole-value interpretations, ==, hash, len, bin compared across modes; toggle sequences between calls. '
         'exhaustive (start,stop,step,len) for len<=5 quick / 7 thorough; data > 8192 bits for the chunked reverse scan; non-trivial = non-palindromic content; distinct by arguments')
 ASSUMPTIONS = ['the msb0 reference semantics are those of C01/C03/C07 (tools/props/refmodel.py)']
-COQ_PRELUDE = '''Definition pe_eqb (a b : bits * option exn) : bool := bits_eqb (fst a) (fst b) && opt_eqb exn_eqb (snd a) (snd b).'''
+COQ_PRELUDE = '''Definition pe_eqb (a b : bits * option exn) : bool := bits_eqb (fst a) (fst b) && opt_eqb exn_eqb (snd a) (snd b).
+Definition value_eqb (a b : value) : bool :=
+  match a, b with
+  | ValBits x, ValBits y => bits_eqb x y | ValZ x, ValZ y => Z.eqb x y | ValBool x, ValBool y => Bool.eqb x y | ValNone, ValNone => true | _, _ => false end.
+Definition chk {A} (eqb : A -> A -> bool) (r : stream * res A) (b : bits) (p : Z) (exp : res A) : bool :=
+  bits_eqb (sbits (fst r)) b && (spos (fst r) =? p) && res_eqb eqb (snd r) exp.
+'''
 
 def rv(s): return s[::-1]
 
@@ -98,6 +104,38 @@ def gen_cases(rng, tier):
             ws = [rng.randrange(1, 9) for _ in range(rng.randrange(1, 5))]
             c.update(ws=ws, vals=[rng.randrange(1 << w) for w in ws])
         yield c
+    # read / peek / readlist / peeklist / unpack with every token kind from any position, and pack of mixed token lists (one format string, or
+    # a list of format strings), under lsb0: evaluated on the lsb0 readers and packer of LsbPack.v and judged by the field rule
+    # "the token at position p of length l is the stored field d[len-p-l : len-p], interpreted as under msb0"
+    from props import c06
+    for _ in range(60 if tier == 'quick' else 1500):
+        n = rng.choice([0, 1, 7, 8, 9, 16, 24, 33, rng.randrange(0, 70)])
+        how = rng.choice(['readlist', 'readlist', 'peeklist', 'unpack', 'read', 'peek'])
+        c = {'op': 'lsbread', 'bits': rand_bits(rng, n), 'pos': rng.randrange(0, n + 1), 'how': how, 'cls': 'ConstBitStream'}
+        if how in ('read', 'peek'): c['toks'] = [c06.rtok(rng, n)]
+        else:
+            toks = [c06.rtok(rng, max(1, n // 3), allow_stretch=False) for _ in range(rng.randrange(0, 5))]
+            if rng.random() < 0.3: toks.insert(rng.randrange(len(toks) + 1), {'k': rng.choice(['bits', 'bin', 'hex', 'uint', 'int', 'bytes'])})
+            c['toks'] = toks
+        yield c
+    for _ in range(50 if tier == 'quick' else 1200):
+        toks, vals = [], []
+        for _ in range(rng.randrange(1, 6)):
+            k = rng.choice(['uint', 'int', 'bool', 'pad', 'bits', 'bin', 'hex', 'ue', 'uint', 'int'])
+            w = rng.choice([1, 2, 3, 4, 5, 8, 12, 16])
+            if k == 'bool': toks.append(['bool', 1]); vals.append(rng.random() < 0.5)
+            elif k == 'pad': toks.append(['pad', w])
+            elif k == 'ue': toks.append(['ue', None]); vals.append(rng.randrange(0, 20))
+            elif k == 'uint': toks.append(['uint', w]); vals.append(rng.choice([0, (1 << w) - 1, 1 << w, rng.randrange(1 << w)]))
+            elif k == 'int': toks.append(['int', w]); vals.append(rng.choice([-(1 << (w - 1)), (1 << (w - 1)) - 1, -(1 << (w - 1)) - 1, rng.randrange(-(1 << (w - 1)), 1 << (w - 1))]))
+            else:
+                if k == 'hex': w = 4 * rng.choice([1, 2, 3])
+                toks.append([k, w]); vals.append(rand_bits(rng, w if rng.random() < 0.9 else w + 1))
+        arity = rng.choice([0, 0, 0, 0, 0, 0, 1, -1])
+        if arity == 1: vals.append(1)
+        elif arity == -1 and vals: vals.pop()
+        yield {'op': 'lsbpack', 'bits': '', 'toks': toks, 'vals': vals, 'split': sorted(rng.sample(range(1, len(toks)), min(len(toks) - 1, rng.choice([0, 0, 1, 2])))) if len(toks) > 1 else [],
+               'cls': 'BitArray'}
 
 def kind(c): return c['op']
 
@@ -140,6 +178,33 @@ def run_impl(c):
         if op == 'readorder':
             t = bitstring.ConstBitStream(bin=c['bits'])
             return [t.read(w).bin for w in c['ws'] if True] if sum(c['ws']) <= len(c['bits']) else 'short'
+        if op == 'lsbread':
+            from props import c06
+            how = c['how']; toks = c['toks']
+            if how == 'unpack':
+                vals = Bits(bin=c['bits']).unpack([c06.fmt_of(t) for t in toks]); t = None
+            else:
+                t = bitstring.ConstBitStream(bin=c['bits'], pos=c['pos'])
+                try:
+                    if how in ('read', 'peek'): return [c06.canon_val(toks[0], getattr(t, how)(c06.fmt_of(toks[0])))[:2], t.pos]
+                    vals = getattr(t, how)([c06.fmt_of(x) for x in toks])
+                except Exception as e:
+                    return ['raised', exn_name(e), t.pos]
+            nonpad = [x for x in toks if not (isinstance(x, dict) and x.get('k') == 'pad')]
+            return [[c06.canon_val(x, v)[:2] for x, v in zip(nonpad, vals)] + ([['extra']] if len(vals) != len(nonpad) else []), None if t is None else t.pos]
+        if op == 'lsbpack':
+            def tok(k, n): return k if n is None else f'{k}:{n}'
+            def val(k, v): return v if k in ('uint', 'int', 'bool', 'ue') else (Bits(bin=v) if k == 'bits' else ('0b' + v if k == 'bin' else (format(int(v, 2), f'0{(len(v) + 3) // 4}x') if len(v) % 4 == 0 else '0b' + v)))
+            vs, i = [], 0
+            for k, n in c['toks']:
+                if k == 'pad': continue
+                if i < len(c['vals']): vs.append(val(k, c['vals'][i]))
+                i += 1
+            vs += c['vals'][i:]
+            parts, cut = [], [0] + c['split'] + [len(c['toks'])]
+            for a_, b_ in zip(cut, cut[1:]): parts.append(', '.join(tok(k, n) for k, n in c['toks'][a_:b_]))
+            fmt = parts if c['split'] else parts[0]
+            return pack(fmt, *vs).bin
         if op == 'packorder':
             p = pack(', '.join(f'uint:{w}' for w in c['ws']), *c['vals'])
             return [p.bin, p.unpack(', '.join(f'uint:{w}' for w in c['ws']))]
@@ -235,6 +300,47 @@ def mirror_expected(c):
         # token i occupies lsb0 positions [sum(w_<i), sum(w_<=i)): the first token is at the least significant end
         return ok([''.join(format(v, f'0{w}b') for w, v in reversed(list(zip(c['ws'], c['vals'])))), c['vals']])
     if op in ('interp', 'toggle'): return ok([True, True, True, True])
+    if op == 'lsbread':
+        # the field rule, for token lists made of fixed-length tokens only (the rest is judged on the Coq readers)
+        d = c['bits']; L = len(d); how = c['how']; p = 0 if how == 'unpack' else c['pos']; out = []; parsed = []
+        for t in c['toks']:
+            if isinstance(t, int): k, l = 'bits', t
+            elif 'n' in t and 'k' in t: k, l = t['k'], t['n'] * (8 if t['k'] == 'bytes' else 1)
+            else: return None
+            if l < 1 or (k == 'hex' and l % 4) or (k == 'bool' and l != 1): return None      # the whole list is validated before anything is read
+            parsed.append((k, l))
+        for k, l in parsed:
+            if p + l > L:
+                if how == 'unpack': return None
+                return ok(['raised', 'ReadError', c['pos']])
+            f = d[L - p - l: L - p]; p += l
+            if k == 'uint': out.append(['z', int(f, 2)])
+            elif k == 'int': out.append(['z', int(f, 2) - ((1 << l) if f[0] == '1' else 0)])
+            elif k == 'bool': out.append(['bool', f == '1'])
+            elif k == 'pad': out.append(['none'])
+            else: out.append(['bits', f])
+        if how in ('read', 'peek'): return ok([out[0], p if how == 'read' else c['pos']])
+        out = [v for v in out if v != ['none']]
+        return ok([out, None if how == 'unpack' else (p if how == 'readlist' else c['pos'])])
+    if op == 'lsbpack':
+        encs, i, bad = [], 0, False
+        for k, n in c['toks']:
+            if k == 'pad': encs.append('0' * n); continue
+            if i >= len(c['vals']): bad = True; break
+            v = c['vals'][i]; i += 1
+            if k == 'ue': bad = True                                   # exp-Golomb codes are refused under lsb0
+            elif k == 'bool': encs.append('1' if v else '0')
+            elif k == 'uint':
+                if not 0 <= v < (1 << n): bad = True
+                else: encs.append(format(v, f'0{n}b'))
+            elif k == 'int':
+                if not -(1 << (n - 1)) <= v < (1 << (n - 1)): bad = True
+                else: encs.append(format(v & ((1 << n) - 1), f'0{n}b'))
+            else:
+                if len(v) != n: bad = True
+                else: encs.append(v)
+        if bad or i != len(c['vals']): return ('err', 'ValueError')
+        return ok(''.join(reversed(encs)))            # the first token is at the least significant (right-hand) end
 
 def oracle(c, obs):
     exp = mirror_expected(c)
@@ -257,6 +363,32 @@ def cob(x): return copt(x, cz)
 
 def coq_check(c, obs):
     op = c['op']; D = cbits(c['bits'])
+    if op == 'lsbread':
+        from props import c06
+        if obs[0] != 'ok': return None
+        o = obs[1]; how = c['how']; toks = c['toks']
+        if any(isinstance(t, dict) and t.get('k') == 'bool' and 'n' not in t for t in toks): return None
+        S = f"(mkstream {D} {cz(c['pos'])})"
+        if o[0] == 'raised':
+            if o[1] not in COQ_EXNS: return None
+            exp, pos = f"(Err {o[1]})", o[2]
+        elif how in ('read', 'peek'): exp, pos = f"(Ok {c06.cval(o[0])})", o[1]
+        else:
+            if ['extra'] in o[0] or any(v[0] == 'other' for v in o[0]): return 'false'
+            exp, pos = f"(Ok {clist(o[0], c06.cval)})", o[1]
+        if how == 'unpack': return f"res_eqb (list_eqb value_eqb) (unpack_m true {D} {clist(toks, c06.ctok)}) {exp}"
+        if how in ('read', 'peek'): return f"chk value_eqb ({how}_token_m true {S} {c06.ctok(toks[0])}) {D} {cz(pos)} {exp}"
+        return f"chk (list_eqb value_eqb) ({how}_m true {S} {clist(toks, c06.ctok)}) {D} {cz(pos)} {exp}"
+    if op == 'lsbpack':
+        CKK = {'uint': 'KUint', 'int': 'KInt', 'bool': 'KBool', 'pad': 'KPad', 'bits': 'KBits', 'bin': 'KBin', 'hex': 'KHex'}
+        toks = [f"(TVar UE, @None value)" if k == 'ue' else f"(TFixed {CKK[k]} {cz(n)}, @None value)" for k, n in c['toks']]
+        kinds = [k for k, n in c['toks'] if k != 'pad']
+        vals = []
+        for i, v in enumerate(c['vals']):
+            k = kinds[i] if i < len(kinds) else 'uint'
+            vals.append(f"(ValBool {cbool(v)})" if k == 'bool' else (f"(ValZ {cz(v)})" if k in ('uint', 'int', 'ue') else f"(ValBits {cbits(v)})"))
+        if obs[0] == 'err' and obs[1] != 'ValueError': return None
+        return f"rbits_eqb (pack_m true [{'; '.join(toks)}] [{'; '.join(vals)}]) {cres(obs, cbits)}"
     if len(c['bits']) > 3000 and op not in ('find', 'rfind', 'findall'): return None
     if len(c['bits']) > 10000: return None      # the model evaluation is quadratic; beyond one chunk boundary the oracle decides (and C12_mirror_findall covers every size)
     def cont(o): return ('ok', o[1][0]) if o[0] == 'ok' else o
